@@ -125,7 +125,8 @@ func init() {
 
 		// ---- context
 		"context.WithValue":    extCtxWithValue,
-		"context.WithCancel":   extCtxWithCancel,
+		// context.WithCancel is interpreted from its source (real cancellation);
+		// deadlines are not modelled: WithTimeout / WithDeadline only wrap the parent
 		"context.WithTimeout":  extCtxWithCancel,
 		"context.WithDeadline": extCtxWithCancel,
 		"context.WithoutCancel": func(fr *frame, a []value) value { return a[0] },
